@@ -207,6 +207,9 @@ pub struct VGen<'a, 't, 'g> {
     marker_n: usize,
     /// external names declared by the POU being generated
     cur_scope_names: Vec<String>,
+    /// names declared by the POU being generated / by earlier POUs and globals (reusable elsewhere)
+    cur_locals: Vec<String>,
+    local_pool: Vec<String>,
 }
 
 const NUM_TYPES: [ElementaryTypeName; 6] = [
@@ -234,6 +237,32 @@ fn vd(name: &str, vt: VariableType, q: DeclarationQualifier, init: InitialValueA
 impl<'a, 't, 'g> VGen<'a, 't, 'g> {
     fn fresh(&mut self) -> String {
         self.names.fresh(self.t)
+    }
+    /// a name for a variable of the POU being generated: usually fresh, sometimes the name of a
+    /// variable of an *earlier* POU or of a global variable that this POU does not import -
+    /// scopes are separate, so the unit stays valid (and a rule that leaks names between scopes
+    /// shows)
+    fn fresh_local(&mut self) -> String {
+        if !self.local_pool.is_empty() && self.t.ratio(1, 5) && self.g.want("LOCAL_NAME_REUSED_IN_ANOTHER_SCOPE") {
+            let cand = self.local_pool[self.t.below(self.local_pool.len())].clone();
+            if !self.cur_locals.iter().any(|n| n.eq_ignore_ascii_case(&cand)) && !self.cur_scope_names.iter().any(|n| n.eq_ignore_ascii_case(&cand)) {
+                self.cur_locals.push(cand.clone());
+                return cand;
+            }
+        }
+        let n = self.fresh();
+        self.cur_locals.push(n.clone());
+        n
+    }
+    /// start of a new POU scope
+    fn new_scope(&mut self) {
+        self.cur_scope_names.clear();
+        let done: Vec<String> = self.cur_locals.drain(..).collect();
+        for n in done {
+            if !self.local_pool.contains(&n) {
+                self.local_pool.push(n);
+            }
+        }
     }
     /// a name that is guaranteed not to be declared anywhere (does not touch the tape)
     fn marker(&mut self, stem: &str) -> String {
@@ -482,7 +511,7 @@ impl<'a, 't, 'g> VGen<'a, 't, 'g> {
         let base = self.cur_class.clone();
         self.cur_class = format!("{}.var", base);
         for _ in 0..n {
-            let name = self.fresh();
+            let name = self.fresh_local();
             let choice = match self.t.below(14) {
                 0..=3 => 0,
                 4 | 5 => 5,
@@ -649,7 +678,7 @@ impl<'a, 't, 'g> VGen<'a, 't, 'g> {
             // name of a global variable that this POU does not declare as VAR_EXTERNAL
             if !self.globals.is_empty() && self.t_free_flag() && self.g.want("UNDECLARED_USE_OF_GLOBAL_NAME") {
                 let g = self.globals[self.sites.iter().sum::<usize>() % self.globals.len()].name.clone();
-                if !self.cur_scope_names.iter().any(|n| n.eq_ignore_ascii_case(&g)) {
+                if !self.cur_scope_names.iter().any(|n| n.eq_ignore_ascii_case(&g)) && !self.cur_locals.iter().any(|n| n.eq_ignore_ascii_case(&g)) {
                     self.set_marker(&g);
                     if let Some(p) = &mut self.planted {
                         p.site_class = format!("{}.global-without-external", p.site_class);
@@ -909,7 +938,7 @@ impl<'a, 't, 'g> VGen<'a, 't, 'g> {
         scope.push(VarInfo { name: g.name.clone(), kind: if g.constant { VKind::SimpleRo(g.ty.clone()) } else { VKind::Simple(g.ty.clone()) } });
     }
     fn gen_fb(&mut self, out: &mut Vec<LibraryElementKind>) {
-        self.cur_scope_names.clear();
+        self.new_scope();
         self.cur_decl = out.len();
         self.cur_class = "fb".into();
         let name = self.fresh();
@@ -919,7 +948,7 @@ impl<'a, 't, 'g> VGen<'a, 't, 'g> {
         // inputs
         let ni = self.t.count(0, 3);
         for _ in 0..ni {
-            let n = self.fresh();
+            let n = self.fresh_local();
             let ty = self.num_type();
             let c = if self.t.flag() { Some(self.elem_const(&ty)) } else { None };
             vars.push(vd(&n, VariableType::Input, DeclarationQualifier::Unspecified, simple(ty.clone().into(), c)));
@@ -927,7 +956,7 @@ impl<'a, 't, 'g> VGen<'a, 't, 'g> {
             info.inputs.push((n, ty));
         }
         if self.t.ratio(1, 4) {
-            let n = self.fresh();
+            let n = self.fresh_local();
             let ty = self.num_type();
             vars.push(vd(&n, VariableType::InOut, DeclarationQualifier::Unspecified, InitialValueAssignmentKind::LateResolvedType(ty.clone().into())));
             scope.push(VarInfo { name: n.clone(), kind: VKind::SimpleRo(ty) });
@@ -935,7 +964,7 @@ impl<'a, 't, 'g> VGen<'a, 't, 'g> {
         }
         let no = self.t.count(0, 2);
         for _ in 0..no {
-            let n = self.fresh();
+            let n = self.fresh_local();
             let ty = self.num_type();
             vars.push(vd(&n, VariableType::Output, DeclarationQualifier::Unspecified, simple(ty.clone().into(), None)));
             scope.push(VarInfo { name: n.clone(), kind: VKind::Simple(ty.clone()) });
@@ -949,7 +978,7 @@ impl<'a, 't, 'g> VGen<'a, 't, 'g> {
         let mut edges = vec![];
         if self.t.ratio(1, 6) {
             // an edge input; it is only *used* in the body behind a gate
-            let n = self.fresh();
+            let n = self.fresh_local();
             edges.push(EdgeVarDecl {
                 identifier: id(&n),
                 direction: if self.t.flag() { EdgeDirection::Rising } else { EdgeDirection::Falling },
@@ -971,7 +1000,7 @@ impl<'a, 't, 'g> VGen<'a, 't, 'g> {
         }));
     }
     fn gen_func(&mut self, out: &mut Vec<LibraryElementKind>) {
-        self.cur_scope_names.clear();
+        self.new_scope();
         self.cur_decl = out.len();
         self.cur_class = "func".into();
         let name = self.fresh();
@@ -979,13 +1008,13 @@ impl<'a, 't, 'g> VGen<'a, 't, 'g> {
         let mut vars = vec![];
         let ni = 1 + self.t.count(0, 2);
         for _ in 0..ni {
-            let n = self.fresh();
+            let n = self.fresh_local();
             let ty = self.num_type();
             vars.push(vd(&n, VariableType::Input, DeclarationQualifier::Unspecified, simple(ty.clone().into(), None)));
             scope.push(VarInfo { name: n, kind: VKind::Simple(ty) });
         }
         if self.t.flag() {
-            let n = self.fresh();
+            let n = self.fresh_local();
             let ty = self.num_type();
             let c = if self.t.flag() { Some(self.elem_const(&ty)) } else { None };
             vars.push(vd(&n, VariableType::Var, DeclarationQualifier::Unspecified, simple(ty.clone().into(), c)));
@@ -1005,7 +1034,7 @@ impl<'a, 't, 'g> VGen<'a, 't, 'g> {
         self.funcs.push(f);
     }
     fn gen_prog(&mut self, out: &mut Vec<LibraryElementKind>) {
-        self.cur_scope_names.clear();
+        self.new_scope();
         self.cur_decl = out.len();
         self.cur_class = "prog".into();
         let name = self.fresh();
@@ -1022,7 +1051,7 @@ impl<'a, 't, 'g> VGen<'a, 't, 'g> {
         }
         if self.t.ratio(1, 4) {
             // located variables
-            let n = self.fresh();
+            let n = self.fresh_local();
             vars.push(VarDecl {
                 identifier: VariableIdentifier::Direct(DirectVariableIdentifier {
                     name: Some(id(&n)),
@@ -1056,6 +1085,7 @@ impl<'a, 't, 'g> VGen<'a, 't, 'g> {
             let name = self.fresh();
             let ty = self.num_type();
             let at_resource = self.t.ratio(1, 3);
+            self.local_pool.push(name.clone());
             self.globals.push(GlobalInfo { name, ty, constant, at_resource });
         }
     }
@@ -1139,6 +1169,8 @@ pub fn gen_unit_multi(t: &mut Tape, gates: &Gates, profile: &Profile, fault: Vec
         ref_edges: 0,
         marker_n: 0,
         cur_scope_names: vec![],
+        cur_locals: vec![],
+        local_pool: vec![],
     };
     let mut out = vec![];
     g.plan_globals();
